@@ -618,6 +618,12 @@ def _event(rep, prog):
         evobj = ir.fmt(adds[0].stmt[2][0])
         emptied = [n for n in F.nodes(kind='call') if n.stmt[1] in clearing and n.stmt[2] and ir.fmt(n.stmt[2][0]) == evobj
                    and F.dominates(n, adds[0])]
+        # other ways of emptying: assignment of a default-constructed event, clear() on the particle list
+        emptied += [n for n in F.nodes(kind='assign') if ir.fmt(n.stmt[1]) == evobj and n.stmt[2][0] == 'call' and
+                    n.stmt[2][1] == 'ctor:bxdecay0::event' and len(n.stmt[2]) == 2 and F.dominates(n, adds[0])]
+        emptied += [n for n in F.nodes(kind='call') if n.stmt[1] == 'std::vector::clear' and n.stmt[2] and
+                    n.stmt[2][0][0] == 'call' and n.stmt[2][0][1].endswith('grab_particles') and evobj in ir.fmt(n.stmt[2][0])
+                    and F.dominates(n, adds[0])]
         rep.add('EVENT', 'starts-empty', where(fn, emptied[0].line if emptied else adds[0].line),
                 'the event is emptied (%s) before the first add_particle, so it holds exactly the two electrons' %
                 ', '.join(sorted(clearing)), bool(emptied),
